@@ -172,7 +172,6 @@ Inductive ekind :=
 | KTagEnd (kw : str)
 | KCode (text : str) (ismodule : bool)
 | KDropNL                 (* backslash-newline consumed by match_text *)
-| KSkip                   (* the character stepped over by an empty match *)
 | KCoding.                (* the magic coding comment at offset 0 *)
 
 Record event := { ev_kind : ekind; ev_src : str; ev_line : N; ev_pos : N }.
@@ -312,7 +311,7 @@ Definition is_kwchar (c : N) : bool := is_word c || (c =? cDOT) || (c =? cCOLON)
 Definition scan_quoted (q : N) (s : str) : option (str * str) :=   (* s starts after the opening quote *)
   let (body, r) := span (fun x => negb (x =? q)) s in
   match r with
-  | _ :: rest => Some (q :: body ++ [q], rest)
+  | x :: rest => Some (q :: body ++ [x], rest)       (* x is the closing quote *)
   | [] => None
   end.
 
@@ -539,7 +538,7 @@ Definition is_ternary (open kw : str) : bool :=
 
 Inductive stepres :=
 | Continue (st : lstate)
-| Stop (st : lstate) (o : outcome)
+| Stop (st : lstate) (e : lexerr) (line pos : N)
 | NoMatch.
 
 Definition strip_ws (s : str) : str :=
@@ -553,14 +552,14 @@ Definition m_expression (st : lstate) : stepres :=
   | None => NoMatch
   | Some r0 =>
       match parse_until true [[cPIPE]; [cRBRACE]] r0 with
-      | None => Stop st (LexErr EUnterminated (c_line c) (cur_pos c))
+      | None => Stop st EUnterminated (c_line c) (cur_pos c)
       | Some (text, stop, r1) =>
           if str_eqb stop [cPIPE] then
             match parse_until true [[cRBRACE]] r1 with
             | None =>
                 (* the position of the last match: the ''|'' *)
                 let cp := advance c ([cDOLLAR; cLBRACE] ++ text) (stop ++ r1) in
-                Stop st (LexErr EUnterminated (c_line cp) (cur_pos cp))
+                Stop st EUnterminated (c_line cp) (cur_pos cp)
             | Some (esc, stop2, r2) =>
                 let src := [cDOLLAR; cLBRACE] ++ text ++ stop ++ esc ++ stop2 in
                 Continue (push_ev st (mk_event c (KExpr (crlf_to_lf text) (strip_ws esc)) src) (advance c src r2))
@@ -584,16 +583,16 @@ Definition m_control_line (st : lstate) : stepres :=
       | CtlHash => Continue (push_ev st (mk_event c (KComment text) src) c')
       | CtlPercent =>
           match ctl_keyword text with
-          | None => Stop st (LexErr EInvalidControl (c_line c) (cur_pos c))
+          | None => Stop st EInvalidControl (c_line c) (cur_pos c)
           | Some (isend, kw) =>
               let ev := mk_event c (KControl kw isend text) src in
               if isend then
                 match ctls st with
-                | [] => Stop st (LexErr ENoStartKw (c_line c) (cur_pos c))
+                | [] => Stop st ENoStartKw (c_line c) (cur_pos c)
                 | (top, _, _) :: rest_ctls =>
                     if str_eqb top kw then
                       Continue {| cur := c'; tags := tags st; ctls := rest_ctls; evs := ev :: evs st |}
-                    else Stop st (LexErr EKwMismatch (c_line c) (cur_pos c))
+                    else Stop st EKwMismatch (c_line c) (cur_pos c)
                 end
               else if is_primary kw then
                 Continue {| cur := c'; tags := tags st; ctls := (kw, c_line c, cur_pos c) :: ctls st; evs := ev :: evs st |}
@@ -601,7 +600,7 @@ Definition m_control_line (st : lstate) : stepres :=
                 match ctls st with
                 | (top, _, _) :: _ =>
                     if is_ternary top kw then Continue (push_ev st ev c')
-                    else Stop (push_ev st ev c') (LexErr EBadTernary (c_line c) (cur_pos c))
+                    else Stop (push_ev st ev c') EBadTernary (c_line c) (cur_pos c)
                 | [] => Continue (push_ev st ev c')
                 end
           end
@@ -624,11 +623,11 @@ Definition do_tag_end (st : lstate) : stepres :=
   | Some (name, src, rest) =>
       let c' := advance c src rest in
       match tags st with
-      | [] => Stop st (LexErr ECloseNoOpen (c_line c) (cur_pos c))
+      | [] => Stop st ECloseNoOpen (c_line c) (cur_pos c)
       | top :: more =>
           if str_eqb top name then
             Continue {| cur := c'; tags := more; ctls := ctls st; evs := mk_event c (KTagEnd name) src :: evs st |}
-          else Stop st (LexErr ECloseMismatch (c_line c) (cur_pos c))
+          else Stop st ECloseMismatch (c_line c) (cur_pos c)
       end
   end.
 
@@ -644,21 +643,14 @@ Definition m_tag_start (st : lstate) : stepres :=
         let st1 := {| cur := c1; tags := kw :: tags st; ctls := ctls st; evs := ev :: evs st |} in
         if str_eqb kw (s2l "text") then
           match find_lit (s2l "</%text>") rest with
-          | None => Stop st1 (LexErr EUnclosedTag (c_line c) (cur_pos c))
+          | None => Stop st1 EUnclosedTag (c_line c) (cur_pos c)
           | Some (body, r2) =>
               match body with
               | [] =>
-                  (* empty match: the cursor steps over one character; an empty Text node is appended;
-                     match_tag_end then fails and match_tag_start reports ''no match'' with the state changed *)
-                  match r2 with
-                  | x :: r3 =>
-                      let cs := advance c1 [x] r3 in
-                      let st2 := push_ev (push_ev st1 (mk_event c1 (KText []) []) c1) (mk_event c1 KSkip [x]) cs in
-                      match do_tag_end st2 with
-                      | NoMatch => Continue st2
-                      | other => other
-                      end
-                  | [] => Stop st1 (LexErr EUnclosedTag (c_line c) (cur_pos c))
+                  (* empty body: no Text node, the closing tag follows at once *)
+                  match do_tag_end st1 with
+                  | NoMatch => Continue st1
+                  | other => other
                   end
               | _ =>
                   let c2 := advance c1 body r2 in
@@ -686,7 +678,7 @@ Definition m_python_block (st : lstate) : stepres :=
         | [] => (false, [cLT; cPCT], r0)
         end in
       match parse_until false [[cPCT; cGT]] r1 with
-      | None => Stop st (LexErr EUnterminated (c_line c) (cur_pos c))
+      | None => Stop st EUnterminated (c_line c) (cur_pos c)
       | Some (text, stop, r2) =>
           let src := opening ++ text ++ stop in
           Continue (push_ev st (mk_event c (KCode text ismod) src) (advance c src r2))
@@ -709,9 +701,9 @@ Definition m_text (st : lstate) : stepres :=
   let '(t, d, rest) := scan_text (c_prev c) (c_rest c) in
   match t, d with
   | [], [] =>
-      (* empty match: step over one character *)
+      (* empty match: the cursor steps over one character, which is emitted as literal text *)
       match rest with
-      | x :: r => Continue (push_ev st (mk_event c KSkip [x]) (advance c [x] r))
+      | x :: r => Continue (push_ev st (mk_event c (KText [x]) [x]) (advance c [x] r))
       | [] => NoMatch        (* at end of input match_end has already fired *)
       end
   | [], _ => Continue (push_ev st (mk_event c KDropNL d) (advance c d rest))
@@ -760,7 +752,7 @@ Fixpoint lex_loop (fuel : nat) (st : lstate) : list event * outcome :=
       | _ =>
           match cascade matcher_order st with
           | Continue st' => lex_loop f st'
-          | Stop st' o => (rev (evs st'), o)
+          | Stop st' e l p => (rev (evs st'), LexErr e l p)
           | NoMatch => (rev (evs st), LexErr EOutOfFuel 0 0)
           end
       end
@@ -787,9 +779,6 @@ Definition emit (e : event) : str :=
 
 (* the slices of the events tile the source: nothing dropped, nothing duplicated *)
 Definition tiles (s : str) (es : list event) : bool := str_eqb (flat_map ev_src es) s.
-
-Definition has_skip (es : list event) : bool :=
-  existsb (fun e => match ev_kind e with KSkip => true | _ => false end) es.
 
 (* literal text is reproduced exactly: a text event emits its own slice; ''%%'' lines emit the
    slice with one ''%'' removed; continuation events and comments emit nothing *)
